@@ -405,6 +405,8 @@ def normalise_tree(tree):
             return all(pure_default(x) for x in e.elts)
         if isinstance(e, ast.Dict):
             return not e.keys
+        if isinstance(e, ast.Call) and isinstance(e.func, ast.Name) and e.func.id in ('set', 'list', 'dict') and not e.args and not e.keywords:
+            return True
         return False
 
     def fold_defaults(body):
@@ -444,8 +446,38 @@ def normalise_tree(tree):
             out.append(s)
             i += 1
         return out
+    def push_empty(body):
+        """`v = <fresh empty container>` directly followed by `if c: for ..: <fills v> ...` (no else, c does not read v) is
+        `if c: v = <empty>; for .. else: v = <empty>`: the loop can then be folded into a comprehension like any other."""
+        for s in body:
+            for field in ('body', 'orelse', 'finalbody'):
+                sub = getattr(s, field, None)
+                if isinstance(sub, list) and sub and isinstance(sub[0], ast.stmt) and not isinstance(s, (ast.FunctionDef, ast.AsyncFunctionDef, ast.ClassDef)):
+                    push_empty(sub)
+            for h in getattr(s, 'handlers', []) or []:
+                push_empty(h.body)
+        i = 0
+        while i + 1 < len(body):
+            s, nxt = body[i], body[i + 1]
+            empty = isinstance(s, ast.Assign) and len(s.targets) == 1 and isinstance(s.targets[0], ast.Name) and (
+                (isinstance(s.value, (ast.List, ast.Set)) and not s.value.elts) or (isinstance(s.value, ast.Dict) and not s.value.keys) or
+                (isinstance(s.value, ast.Call) and isinstance(s.value.func, ast.Name) and s.value.func.id in ('list', 'set', 'dict') and not s.value.args and not s.value.keywords))
+            if empty and isinstance(nxt, ast.If) and not nxt.orelse and nxt.body:
+                v = s.targets[0].id
+                reads = lambda e: any(isinstance(x, ast.Name) and x.id == v for x in ast.walk(e))
+                k = next((k for k, st in enumerate(nxt.body) if reads(st)), None)      # first statement of the arm that touches v
+                if k is not None and isinstance(nxt.body[k], ast.For) and not reads(nxt.test) and not reads(nxt.body[k].iter) \
+                        and not any(isinstance(x, ast.NamedExpr) for x in ast.walk(nxt.test)):
+                    import copy as _copy
+                    bind = ast.copy_location(ast.Assign(targets=[ast.Name(id=v, ctx=ast.Store())], value=_copy.deepcopy(s.value)), nxt.body[k])
+                    nxt.body = nxt.body[:k] + [bind] + nxt.body[k:]
+                    nxt.orelse = [s]
+                    del body[i]
+                    continue
+            i += 1
     for n in ast.walk(tree):
         if isinstance(n, (ast.FunctionDef, ast.AsyncFunctionDef)):
+            push_empty(n.body)
             n.body = fold_loops(n.body)
             n.body = fold_defaults(n.body)
     # the folded conditionals may have a negated test: same orientation rule as above
@@ -1386,7 +1418,7 @@ def canon(expr, params=(), rename=None, consts=None):
             return ('bin', type(e.op).__name__, c(e.left), c(e.right))
         if isinstance(e, ast.Call):
             fn = dotted(e.func)
-            if fn and (fn.split('.')[0] in rename or fn.split('.')[0] in params) and fn.split('.')[0] != 'self':
+            if fn and (fn.split('.')[0] in rename or fn.split('.')[0] in params or (consts and '.' in fn and fn.split('.')[0] in consts)) and fn.split('.')[0] != 'self':
                 fn = None           # method call on a local / parameter: the receiver is a term, not a name
             fn = _FN_ALIAS.get(fn, fn)
             if isinstance(e.func, ast.Attribute) and e.func.attr == 'tolist' and not e.args and not e.keywords and isinstance(e.func.value, ast.Call) \
